@@ -212,3 +212,41 @@ Print Assumptions C01_is_deletable_no_miss_partial.
 Print Assumptions C01_unprotected_updatable_no_miss_partial.
 Print Assumptions C01_unprotected_deletable_no_miss_partial.
 Print Assumptions C01_group_size_check_no_miss_partial.
+
+(* ------------------------------------------------------------------------------------------------------------
+   Extension (second round): the executions the theorems speak about are derived from a CFG-FREE, instruction-level
+   concrete semantics (Spec/InsSem.v: program counter, return stack, data stack; data-determined bz/bnz), not defined on
+   tealer's blocks: Lemmas/InsSemLemmas.v *)
+From Coq Require Import List String NArith ZArith Bool Arith.
+From Tealer Require Import Tables Leaves LeafPrelude Syntax Parse Cfg StackAst Keys Analysis Domains Detect Runs Eval Exec InsExec InsSem WalkLemmas ExecLemmas GraphWf NoMiss InsSemLemmas.
+
+(* the block-level approving executions (Spec/Exec.Accepts) used in every end-to-end theorem are EXACTLY the abstractions of instruction-level approving executions: nothing about the graph is assumed in what "execution" means *)
+Theorem C01_executions_are_instruction_level :
+  forall (e : env) (sem : opsem) (p : prog) (t : teal) (cfgs : list rconfig),
+       parse_teal p = Ok t ->
+       Accepts e sem (whole_function t) cfgs <-> (exists tr : list dconfig, IAccepts e sem p tr /\ abs_trace t (ctl_trace tr) = cfgs).
+Proof. exact @accepts_iff_iaccepts. Qed.
+
+(* END TO END at instruction level, missing-fee-check: a pc-level approving execution of a structured parsed program with Fee > 272000 => a path is reported *)
+Theorem C01_fee_no_miss_instruction_level :
+  forall (e : env) (sem : opsem) (p : prog) (t : teal) (fuel fuel' : nat) (res0 : fn_result) (tr : list dconfig) (ps : list (list nat))
+         (fee : Z),
+       parse_teal p = Ok t ->
+       struct_okb t = true ->
+       sem_ok e sem ->
+       env_ok e ->
+       t_intcs t = e_intcs e ->
+       fee_leaves_ok (whole_function t) KSelf ->
+       fee_leaves_ok (whole_function t) (KAtIndex (e_own e)) ->
+       int_leaves_ok (whole_function t) true ->
+       int_leaves_ok (whole_function t) false ->
+       run_all (whole_function t) fuel = Done res0 ->
+       IAccepts e sem p tr ->
+       inonrecursive p tr ->
+       e_field e (e_own e) "Fee" = VInt fee ->
+       (MAX_TRANSACTION_COSTz < fee <= MAX_UINT64z)%Z ->
+       run_detector (whole_function t) res0 fuel' "missing-fee-check" checks_missing_fee_check = Done ps -> ps <> nil.
+Proof. exact @C01_fee_no_miss_ins_pc. Qed.
+
+Print Assumptions C01_executions_are_instruction_level.
+Print Assumptions C01_fee_no_miss_instruction_level.
